@@ -470,6 +470,39 @@ def alloc_check(prop, tier):
                                 "events": [e for e in evs if e["ev"] in ("Place", "Mmap", "Munmap", "Installed", "Called", "ChildExit")][-30:]})
     for sc in live[:3]:
         run.sample({"layout": sc, "mmap_events": [e for e in groups.get(sc["id"], []) if e["ev"] in ("Mmap", "Munmap")][:6]})
+    # arm64 half: the allocator is the same Rust code on every architecture (it just ran natively); the
+    # branch encoder is architecture-specific (simulated).  Join them: every displacement the real
+    # allocator accepted must be encodable by the arm64 entry branch.
+    R = 0x8000000
+    accepted_d = set()
+    for sc in live:
+        inst = next((e for e in groups.get(sc["id"], []) if e["ev"] == "Installed"), None)
+        if inst and inst["outcome"] == "ok":
+            accepted_d.add(int.from_bytes(bytes(inst["tramp"]), "little") - int.from_bytes(bytes(inst["func"]), "little"))
+    run.extra["allocator_accepted_extremes"] = {"min": min(accepted_d) if accepted_d else None, "max": max(accepted_d) if accepted_d else None}
+    src0 = 0x0000007f80000000
+    cases = []
+    ds = sorted(set([-R, -R + 4096, R - 4096, R, 4096, -4096] + [d for d in accepted_d if abs(d) >= R - 8192 and d % 4 == 0]))
+    for d in ds:
+        cases.append({"isa": "a64-linux", "kind": "jump", "src": src0, "tramp": src0 + d, "fake": 0x1234567890, "v": 0, "d": d})
+    scen2 = [{"id": 1, "cases": cases}]
+    g2, o2, _ = vlib.run_harness("sim", scen2, "sim_C11", timeout=600)
+    evs = g2.get(1, [])
+    per = []
+    for c, e in zip(cases, evs):
+        e = dict(e)
+        e["alloc_accepts"] = (abs(c["d"]) < R - 4096) or (c["d"] in accepted_d)
+        per.append((len(per) + 1, [e]))
+    cfgs = tlc.make_cfg("Trace_Sim", {"Props": '{"C11", "ALL"}'}, "Trace_Sim_C11")
+    tv2 = tlc.validate_traces("Trace_Sim", cfgs, per, WORK, "trace_sim_C11", timeout=600)
+    run.traces += len(tv2["accepted"])
+    run.states += tv2["states"]
+    run.transitions += tv2["transitions"]
+    for sid, ev1 in per:
+        if sid not in tv2["accepted"]:
+            c = cases[sid - 1]
+            run.violation("C11 isa=arm64-linux d=%+#x accepted-by-allocator refused-by-encoder leaked=1" % c["d"],
+                          {"case": c, "event": {k: ev1[0][k] for k in ("outcome", "msg", "alloc_accepts", "entry")}})
     return run.finish()
 
 
